@@ -98,8 +98,19 @@ pub fn over_budget(budget_s: f64) -> Option<(String, f64)> {
     worst
 }
 
+static HANDLER: OnceLock<Arc<dyn Fn(String, f64) + Send + Sync>> = OnceLock::new();
+
+/// A call has gone through `steps` retry rounds without finishing (a logical-step bound, reported by a hook
+/// inside the retry loop): hand it to the process's livelock handler.
+pub fn logical_livelock(call: &str, steps: u64) {
+    if let Some(h) = HANDLER.get() {
+        h(format!("{call} (still retrying after {steps} rounds of its internal retry loop)"), 0.0);
+    }
+}
+
 /// Background supervisor: calls `on_livelock` once when some in-flight call exceeds the CPU budget.
 pub fn supervise(budget_s: f64, on_livelock: Arc<dyn Fn(String, f64) + Send + Sync>) {
+    let _ = HANDLER.set(on_livelock.clone());
     std::thread::spawn(move || loop {
         std::thread::sleep(std::time::Duration::from_millis(250));
         if let Some((call, burnt)) = over_budget(budget_s) {
